@@ -100,6 +100,11 @@ CLAIMS["C18"] = dict(
     design_ref="§5 C18", technique="decide over regenerated class table + Lean 4 routing theorems + route correspondence + twin oracle over a key pool",
     note=COMMON_NOTE + "Known finding: getattr of a protected name that is not an attribute of the object falls through to the data (pinned by the repository's tests). Python's attribute lookup order is modelled.")
 
+CLAIMS["C19"] = dict(
+    text="Theorems over SC/Resolver.lean (ordered predicates, per-type cache, blocklist): C19_cache_transparent (if the predicates are type-determined on every cacheable type, then after ANY history of get_type calls every answer equals the cache-free classification and the cache stays correct - induction over histories), C19_outcome_history_free, C19_type_determined_of_preds; C19_resolvers_table (decide over the regenerated table of all 7 module-level resolvers: isinstance-only predicates, or numpy-dependent ones with ndarray blocklisted and a subclass-aware blocklist test); C19_exact_blocklist_is_history_dependent (the model exhibits the defect that was fixed). Real code: warm-up histories in fresh interpreters (with and without a numpy stand-in) against history-free probes; resolver-algorithm correspondence with the model.",
+    design_ref="§5 C19", technique="Lean 4 invariant over call histories + decide over AST-derived resolver table + fresh-interpreter differential histories + resolver correspondence",
+    note=COMMON_NOTE + "isinstance is assumed type-determined; numpy is exercised through a stand-in.")
+
 NOT_YET = {}
 
 NOTES = ("All checks share one pipeline (./check): regenerate lean/SC/Generated/Tables.lean from /repo, lake build the model driver and the property's "
